@@ -23,6 +23,7 @@ from ..common import MachineryError, time_limit, ImplTimeout
 
 ABS, ND, RAISED, UNKNOWN_VALUE = 98, 99, 97, 96
 HASH_ID0 = 1000
+WORKERS = 8  # other checks run TLC concurrently; the judges are dominated by (sequential) JSON parsing
 
 MC_CFG = """SPECIFICATION Spec
 CONSTANTS NF = %(nf)d
@@ -190,10 +191,11 @@ def shape(world, st, nf):
         return []
 
 
-def observe(world, states, w, nf, intern, stats):
-    """Full observation of the states w (1-based) -- called on a replica only (it condenses)."""
+def observe(world, states, w, nf, intern, stats, touched):
+    """Full observation of the states w (1-based) -- called on a replica only (it condenses).
+    The private shape is recorded for the states the call created or was applied to."""
     sts = [states[s - 1] for s in w]
-    shs = [shape(world, st, nf) for st in sts]
+    shs = [shape(world, st, nf) if s in touched else [] for s, st in zip(w, sts)]
     obs = []
     for s, st, sh in zip(w, sts, shs):
         g = []
@@ -235,6 +237,17 @@ def observe(world, states, w, nf, intern, stats):
     return obs
 
 
+def trim(o):
+    """Drop the fields the call does not use (the judge reads fields by need)."""
+    keep = {"new": ("lim", "u"), "child": ("s", "u"), "hash": ("s",), "repr": ("s",), "eq": ("s", "t"), "get": ("s", "f")}[o["op"]]
+    for k in ("s", "t", "f", "lim", "u"):
+        if k not in keep:
+            o.pop(k, None)
+    if not o.get("x"):
+        o.pop("x", None)
+    return o
+
+
 def replay(world, base, ops, nf, stats):
     """Run one call history; returns the ops with results and observations (truncated after a
     call that raised something unexpected)."""
@@ -252,7 +265,7 @@ def replay(world, base, ops, nf, stats):
             o["r"], o["x"] = call(world, main, o, intern)
             if o["r"] == RAISED:
                 o["w"], o["obs"] = [], []
-                out.append(o)
+                out.append(trim(o))
                 break
             # fresh replica of the prefix, so that the observation does not disturb the history
             rep = []
@@ -265,9 +278,11 @@ def replay(world, base, ops, nf, stats):
             if dead:
                 o["r"], o["x"] = RAISED, "replica diverged"
                 o["w"], o["obs"] = [], []
-                out.append(o)
+                out.append(trim(o))
                 break
-            o["obs"] = observe(world, rep, o["w"], nf, intern, stats)
+            touched = {len(rep)} if o["op"] in ("new", "child") else {o["s"], o["t"]}
+            o["obs"] = observe(world, rep, o["w"], nf, intern, stats, touched)
+            trim(o)
             if o["op"] == "child" and len(main) == nbefore + 1:
                 sh = shape(world, main[-1], nf)
                 if sh:
@@ -361,7 +376,7 @@ def judge(ctx, label, traces, nf, defn, world):
     d = ctx.sub("judge-" + label)
     path = os.path.join(d, "traces.ndjson")
     tlc.write_ndjson(path, traces)
-    res = tlc.run_tlc("UPStateSMTrace", TRACE_CFG % {"nf": nf, "defn": defn}, d, env={"TRACES": path}, timeout=3000)
+    res = tlc.run_tlc("UPStateSMTrace", TRACE_CFG % {"nf": nf, "defn": defn}, d, env={"TRACES": path}, timeout=3000, workers=WORKERS)
     if res.error or res.violated:
         raise MachineryError("UPStateSMTrace failed: %s %s" % (res.violated, res.error))
     expected = sum(len(t["ops"]) + 1 for t in traces)
@@ -417,7 +432,7 @@ def run(ctx):
         ]
     d = ctx.sub("t1")
     for c in cfgs:
-        res = tlc.run_tlc("MCUPStateSM", MC_CFG % c, d, timeout=3000)
+        res = tlc.run_tlc("MCUPStateSM", MC_CFG % c, d, timeout=3000, workers=WORKERS)
         if res.error:
             raise MachineryError(res.error)
         ctx.add_tlc("T1 %r" % (c,), res)
@@ -429,7 +444,7 @@ def run(ctx):
             )
     # vacuity of T1: every branch-action of Next is taken (small configuration, -coverage is slow)
     c = dict(nf=2, defn="Def2", maxn=3, maxroots=1, dicts="DictsAll", lims="{1}")
-    res = tlc.run_tlc("MCUPStateSM", MC_CFG % c, d, timeout=3000, coverage=True)
+    res = tlc.run_tlc("MCUPStateSM", MC_CFG % c, d, timeout=3000, coverage=True, workers=WORKERS)
     if res.error or res.violated:
         raise MachineryError("T1 coverage run failed: %s %s" % (res.violated, res.error))
     ctx.add_tlc("T1 coverage %r" % (c,), res)
@@ -443,10 +458,10 @@ def run(ctx):
     if world.defs[:3] != [0, 1, ND]:
         raise MachineryError("fluent defaults of the driver's Problem are not Def3: %r" % (world.defs,))
     if q:
-        enums = [(dict(L=4, maxn=4, maxroots=2, roots="RootsQ", upds="UpdsQ", kinds="KindsAll"), [(1, 1), (2, 2), (0, 0), (0, 20), (2, 20)])]
+        enums = [(dict(L=4, maxn=4, maxroots=1, roots="RootsQ", upds="UpdsQ", kinds="KindsAll"), [(1, 1), (2, 2), (0, 0), (2, 20)])]
     else:
         enums = [
-            (dict(L=4, maxn=4, maxroots=2, roots="RootsT", upds="UpdsT", kinds="KindsAll"), [(1, 1), (2, 2), (0, 0), (0, 20), (2, 20), (20, 20), (1, 2)]),
+            (dict(L=4, maxn=4, maxroots=2, roots="RootsT", upds="UpdsT", kinds="KindsAll"), [(1, 1), (2, 2), (0, 0), (0, 20), (2, 20)]),
             (dict(L=5, maxn=5, maxroots=1, roots="RootsD", upds="UpdsD", kinds="KindsD"), [(1, 1), (2, 2), (0, 0)]),
         ]
     nontrivial = 0
@@ -462,8 +477,9 @@ def run(ctx):
         emitted = [p[1] for p in res.printed if p and p[0] == "EMITTED"]
         if not hist or emitted != [len(hist)]:
             raise MachineryError("UPStateSMEnum emitted %r histories, read %d" % (emitted, len(hist)))
-        traces = []
+        ctx.cov["enumerated_histories_L%d" % ec["L"]] = len(hist)
         for (rootlim, base) in configs:
+            traces = []
             for h in hist:
                 ops = [dict(tag(o), lim=(rootlim if o["op"] == "new" else 0)) for o in h["ops"]]
                 before = (stats["obs_eq_true"], stats["obs_missing"], stats["obs_linked"])
@@ -475,17 +491,18 @@ def run(ctx):
                 after = (stats["obs_eq_true"], stats["obs_missing"], stats["obs_linked"])
                 if after[2] > before[2] and (after[0] > before[0] or after[1] > before[1]):
                     nontrivial += 1
-        ctx.cov["evaluations"] += len(traces)
-        if traces:
-            t = traces[min(len(traces) - 1, len(hist) + len(hist) // 2)]
-            ctx.sample({"kind": "enumerated history (UPState.MAX_ANCESTORS %s)" % (t["base"] or None), "ops": t["ops"]})
-        drift += judge(ctx, "enum%d" % ei, traces, nf, "Def3T", world)
+            ctx.cov["evaluations"] += len(traces)
+            if traces and (rootlim, base) == (2, 2):
+                t = traces[len(traces) // 2]
+                ctx.sample({"kind": "enumerated history (root limit 2, UPState.MAX_ANCESTORS 2)", "ops": t["ops"]})
+            if traces:
+                drift += judge(ctx, "enum%d-%s-%s" % (ei, rootlim, base), traces, nf, "Def3T", world)
 
     # ---- T3: seeded long random histories ---------------------------------------------
     nf2 = 5
     if world.defs != [0, 1, ND, 1, 1]:
         raise MachineryError("fluent defaults of the driver's Problem are not Def5: %r" % (world.defs,))
-    nr = 700 if q else 6000
+    nr = 400 if q else 3000
     rtr = []
     for i in range(nr):
         nops = ctx.rng.choice([12, 25, 40, 60]) if i % 4 else 60
